@@ -11,11 +11,13 @@ import (
 	"fmt"
 	"math/rand"
 	"os"
+	"runtime"
 	"sync"
 	"sync/atomic"
 
 	sentinel "github.com/alibaba/sentinel-golang/api"
 	"github.com/alibaba/sentinel-golang/core/base"
+	"github.com/alibaba/sentinel-golang/core/flow"
 	"github.com/alibaba/sentinel-golang/core/isolation"
 	"github.com/alibaba/sentinel-golang/core/stat"
 	"github.com/alibaba/sentinel-golang/core/system"
@@ -26,12 +28,64 @@ import (
 )
 
 var run *vk.Run
+var clk *vclock.Clock
 var prop string
 var caseNo int
 
 const G = 16
 
+// C02: a flow rule is loaded onto a never-seen resource while the first requests of that resource arrive: whichever
+// of them creates the resource's statistic node, the rule must end up reading the node the requests are counted on.
+// Afterwards (everything quiet, clock frozen) ten sequential requests may add at most the threshold to the window.
+func roundC02(r int, rng *rand.Rand) {
+	caseNo++
+	const T = 3
+	for f := 0; f < 60; f++ {
+		fresh := fmt.Sprintf("parcap-C02-%d-%d", caseNo, f)
+		gate := make(chan struct{})
+		var fw sync.WaitGroup
+		for g := 0; g < G; g++ {
+			fw.Add(1)
+			g := g
+			go func() {
+				defer fw.Done()
+				<-gate
+				if g == 0 {
+					flow.LoadRulesOfResource(fresh, []*flow.Rule{{ID: "f", Resource: fresh, TokenCalculateStrategy: flow.Direct, ControlBehavior: flow.Reject, Threshold: T}})
+					return
+				}
+				if e, b := sentinel.Entry(fresh); b == nil {
+					e.Exit()
+				}
+			}()
+		}
+		close(gate)
+		fw.Wait()
+		seq := 0
+		for k := 0; k < 10; k++ {
+			if e, b := sentinel.Entry(fresh); b == nil {
+				seq++
+				e.Exit()
+			}
+		}
+		flow.ClearRulesOfResource(fresh)
+		if seq > T {
+			run.Violation("C02/par:rule-loaded-at-first-sight-does-not-count", fmt.Sprintf("round %d: a reject rule (threshold %d) was loaded onto a never-seen resource while its first %d requests arrived; afterwards, with a frozen clock, %d of 10 sequential requests were admitted", r, T, G-1, seq), map[string]interface{}{"round": r, "trial": f})
+			return
+		}
+		run.Count("first_sight_rule_loads", 1)
+	}
+	run.Distinct(vk.Hash("c02", r))
+	if r < 2 {
+		run.Sample(map[string]interface{}{"round": r, "trials": 60, "requesters": G - 1, "threshold": T})
+	}
+}
+
 func round(r int, rng *rand.Rand) {
+	if prop == "C02" {
+		roundC02(r, rng)
+		return
+	}
 	caseNo++
 	res := fmt.Sprintf("parcap-%s-%d", prop, caseNo)
 	thr := 1 + rng.Intn(5)
@@ -48,11 +102,27 @@ func round(r int, rng *rand.Rand) {
 	var outBlocked, wrongType atomic.Value
 	var admitted, blocked int64
 	var wg sync.WaitGroup
+	start := make(chan struct{}) // all goroutines leave together (the first requests of a process / a resource overlap)
+	var stopWobble int32
+	wobbleDone := make(chan struct{})
+	go func() {
+		// the wall clock is stepped back and forth by a few ms while requests are in flight (NTP corrections): the
+		// in-flight figure does not depend on time
+		defer close(wobbleDone)
+		<-start
+		base := clk.Ms()
+		for k := 0; atomic.LoadInt32(&stopWobble) == 0; k++ {
+			clk.SetMs(base + uint64((k*7)%5))
+			runtime.Gosched()
+		}
+		clk.SetMs(base + 5)
+	}()
 	for g := 0; g < G; g++ {
 		wg.Add(1)
 		grng := rand.New(rand.NewSource(rng.Int63()))
 		go func() {
 			defer wg.Done()
+			<-start
 			type held struct {
 				e     *base.SentinelEntry
 				units int64
@@ -116,7 +186,10 @@ func round(r int, rng *rand.Rand) {
 			}
 		}()
 	}
+	close(start)
 	wg.Wait()
+	atomic.StoreInt32(&stopWobble, 1)
+	<-wobbleDone
 	d := map[string]interface{}{"round": r, "threshold": thr, "goroutines": G, "steps_each": steps}
 	if s, _ := outBlocked.Load().(string); s != "" {
 		run.Violation(prop+"/par:outbound-blocked", fmt.Sprintf("round %d: %s", r, s), d)
@@ -217,10 +290,10 @@ func round(r int, rng *rand.Rand) {
 
 func main() {
 	sx.Quiet()
-	vclock.New(1900000000000)
+	clk = vclock.New(1900000000000)
 	prop = os.Getenv("VERIF_PROP")
-	if prop != "C04" && prop != "C07" {
-		fmt.Fprintln(os.Stderr, "VERIF_PROP must be C04 or C07")
+	if prop != "C04" && prop != "C07" && prop != "C02" {
+		fmt.Fprintln(os.Stderr, "VERIF_PROP must be C02, C04 or C07")
 		os.Exit(3)
 	}
 	run = vk.Start(prop, "par")
